@@ -401,6 +401,14 @@ def _arm_fault(dev, j, flavour):
     def script(n, data):
         if n < first:
             return None
+        if flavour == "rsp_noise_once":
+            # the tag executes this one command, the reader sees a transmission error instead of the answer (or instead
+            # of the silence that acknowledges SECTOR SELECT packet 2); later exchanges are undisturbed
+            if n != first:
+                return None
+            hit["cmd"] = data
+            hit["n"] += 1
+            return ("rsp_lost", nfc.clf.TransmissionError)
         if not hit["n"]:
             hit["cmd"] = data
         hit["n"] += 1
@@ -668,7 +676,8 @@ REQUIRED_C03 = ["t2t_c03_ops_write", "t2t_c03_ops_format", "t2t_c03_ops_format_w
                 "t2t_c03_retry_ops", "t2t_c03_retry_attempt_failed_then_retry_returned",
                 "t2t_c03_retry_fault_at_sector_select_packet_1", "t2t_c03_retry_fault_at_sector_select_packet_2",
                 "t2t_c03_retry_fault_at_write", "t2t_c03_retry_two_sector_message", "t2t_c03_retry_writes_in_sector_1",
-                "t2t_c03_retry_two_failed_attempts", "t2t_c03_retry_every_position_sequences"]
+                "t2t_c03_retry_two_failed_attempts", "t2t_c03_retry_every_position_sequences",
+                "t2t_c03_retry_noise_at_sector_select_packet_2"]
 
 
 def plan_c03(tier):
@@ -769,6 +778,14 @@ def _run_c03_retry(desc, R, rng):
             c = dict(base)
             c["ops"] = [[op[0], op[1], faults]]
             c03_case(c, R)
+        # SECTOR SELECT packet 2 executed by the tag, but the reader sees a transmission error where it expects silence:
+        # the select is reported as failed although the tag has switched; the retry must not write to the other sector
+        for j in range(1, n):
+            if seq[j - 1] == b"\xC2\xFF" and len(seq[j]) == 4:
+                c = dict(base)
+                c["ops"] = [[op[0], op[1], [[j, "rsp_noise_once"]]]]
+                c03_case(c, R)
+                R.count("t2t_c03_retry_noise_at_sector_select_packet_2")
 
 
 def run_c03(desc, R, rng):
